@@ -24,6 +24,10 @@ func TestVerifClientFree(t *testing.T) {
 	for run := 0; run < runs; run++ {
 		freeRun(tw, run, 0)
 	}
+	// many goroutines call Close on the same client at the same moment
+	for trial := 0; trial < envInt("VERIF_CLOSE_STORM", 0); trial++ {
+		closeStorm(tw, trial)
+	}
 	// sequential churn: thousands of transactions one after the other through the same pools
 	if n := envInt("VERIF_FREE_CHURN", 0); n > 0 {
 		freeRun(tw, 1000, n)
@@ -61,7 +65,7 @@ func freeRun(tw *traceWriter, run int, churn int) {
 	if noRetx {
 		opts = append(opts, stun.WithNoRetransmit)
 	}
-	emit(map[string]interface{}{"k": "cfg", "maxattempts": map[bool]int{true: 0, false: 7}[noRetx], "closeconn": true, "fallback": fallback, "rto": 1})
+	emit(map[string]interface{}{"k": "cfg", "maxattempts": map[bool]int{true: 0, false: 7}[noRetx], "closeconn": true, "fallback": fallback, "rto": 1, "free": true})
 	cli, err := stun.NewClient(conn, opts...)
 	if err != nil {
 		panic(err)
@@ -116,7 +120,8 @@ func freeRun(tw *traceWriter, run int, churn int) {
 				case x < 94:
 					send("msg", 60000+id, respMessage(cliID(60000+id), 8))
 				default:
-					send("garbage", -1, []byte{1, 2, 3, 4, 5, 6, 7, 8, 9, 10, 11, 12, 13, 14, 15, 16, 17, 18, 19, 20, 21, 22})
+					g := []byte{1, 2, 3, 4, 5, 6, 7, 8, 9, 10, 11, 12, 13, 14, 15, 16, 17, 18, 19, 20, 21, 22}
+					send("garbage", -1, g[:[]int{22, 22, 19, 7, 0}[x%5]])
 				}
 			}
 		}
@@ -179,10 +184,14 @@ func freeRun(tw *traceWriter, run int, churn int) {
 				}
 				emit(map[string]interface{}{"k": "handler", "s": i, "p": c.procName(), "kind": evKind(e),
 					"id": idIndex(e.TransactionID), "msg": raw, "t": c.now()})
+				if i%8 == 2 {
+					time.Sleep(50 * time.Microsecond) // a handler that takes its time: Do must not return before it is through
+				}
+				emit(map[string]interface{}{"k": "handler_done", "s": i})
 			}
-			emit(map[string]interface{}{"k": "start_call", "s": i, "id": i, "raw": ints(snapshot), "t": c.now()})
-			var err error
 			isDo := i%2 == 0
+			emit(map[string]interface{}{"k": "start_call", "s": i, "id": i, "raw": ints(snapshot), "t": c.now(), "do": isDo})
+			var err error
 			if isDo {
 				err = cli.Do(m, h)
 			} else {
@@ -215,6 +224,13 @@ func freeRun(tw *traceWriter, run int, churn int) {
 	// let the remaining transactions run into their responses / timeouts, then close (if not closed yet)
 	if closeAt < 0 {
 		time.Sleep(5 * time.Millisecond)
+		readerAlive := false
+		for _, g := range libGoroutinesOf(cli) {
+			readerAlive = readerAlive || g == "reader"
+		}
+		if !readerAlive {
+			emit(map[string]interface{}{"k": "exit", "p": "RD"}) // the reader must live until Close
+		}
 		emit(map[string]interface{}{"k": "close_call"})
 		err := cli.Close()
 		alive := libGoroutinesOf(cli)
@@ -243,6 +259,7 @@ func freeRun(tw *traceWriter, run int, churn int) {
 		var err error
 		h := func(e stun.Event) {
 			emit(map[string]interface{}{"k": "handler", "s": i, "p": c.procName(), "kind": evKind(e), "id": idIndex(e.TransactionID), "msg": []int{}, "t": c.now()})
+			emit(map[string]interface{}{"k": "handler_done", "s": i})
 		}
 		switch kind {
 		case "start":
@@ -255,6 +272,97 @@ func freeRun(tw *traceWriter, run int, churn int) {
 		emit(map[string]interface{}{"k": "start_ret", "s": i, "err": fmtErr(err)})
 	}
 	close(stop)
+	emit(map[string]interface{}{"k": "end", "drifted": false, "free": true})
+	atomic.StoreInt32(&logging, 0)
+	conn.forceClose()
+}
+
+// closeStorm: 8 goroutines released together call Close on one client with two transactions in flight. Exactly one
+// Close may succeed, the connection is closed once (never under WithNoConnClose), each handler gets its closed event
+// once, nothing panics.
+func closeStorm(tw *traceWriter, trial int) {
+	var logging int32 = 1
+	emit := func(m map[string]interface{}) {
+		if atomic.LoadInt32(&logging) == 0 {
+			return
+		}
+		m["tr"] = 200000 + trial
+		tw.emit(m)
+	}
+	c := newGctl(emit)
+	c.free = true
+	conn := &gConn{c: c, closeCh: make(chan struct{}), inQ: make(chan []byte, 16), outQ: make(chan []byte, 16)}
+	ga := &gAgent{c: c, a: stun.NewAgent(nil)}
+	closeConn := trial%3 != 2
+	opts := []stun.ClientOption{stun.WithAgent(ga), stun.WithClock(gClock{c}), stun.WithRTO(time.Second),
+		stun.WithTimeoutRate(time.Millisecond)}
+	if !closeConn {
+		opts = append(opts, stun.WithNoConnClose())
+	}
+	emit(map[string]interface{}{"k": "cfg", "maxattempts": 7, "closeconn": closeConn, "fallback": false, "rto": 1, "free": true})
+	cli, err := stun.NewClient(conn, opts...)
+	if err != nil {
+		panic(err)
+	}
+	for i := 1; i <= 2; i++ {
+		i := i
+		m := new(stun.Message)
+		m.TransactionID = cliID(i)
+		m.Type = stun.BindingRequest
+		m.WriteHeader()
+		emit(map[string]interface{}{"k": "start_call", "s": i, "id": i, "raw": ints(m.Raw), "t": c.now(), "do": false})
+		err := cli.Start(m, func(e stun.Event) {
+			emit(map[string]interface{}{"k": "handler", "s": i, "p": c.procName(), "kind": evKind(e),
+				"id": idIndex(e.TransactionID), "msg": []int{}, "t": c.now()})
+			emit(map[string]interface{}{"k": "handler_done", "s": i})
+		})
+		emit(map[string]interface{}{"k": "start_ret", "s": i, "err": fmtErr(err), "do": false})
+	}
+	const closers = 8
+	var ready, done sync.WaitGroup
+	gate := make(chan struct{})
+	emit(map[string]interface{}{"k": "close_call"})
+	for k := 0; k < closers; k++ {
+		ready.Add(1)
+		done.Add(1)
+		go func() {
+			defer done.Done()
+			defer func() {
+				if x := recover(); x != nil {
+					emit(map[string]interface{}{"k": "libpanic", "report": fmt.Sprint("concurrent Close panicked: ", x)})
+				}
+			}()
+			ready.Done()
+			<-gate
+			err := cli.Close()
+			if err == nil {
+				alive := libGoroutinesOf(cli)
+				for j := 0; j < 500 && len(alive) > 0; j++ {
+					time.Sleep(time.Millisecond)
+					alive = libGoroutinesOf(cli)
+				}
+				emit(map[string]interface{}{"k": "close_ret", "err": fmtErr(err), "alive": alive, "free": true})
+				return
+			}
+			emit(map[string]interface{}{"k": "close_ret2", "err": fmtErr(err)})
+		}()
+	}
+	ready.Wait()
+	close(gate)
+	if !closeConn {
+		// precondition of WithNoConnClose: the owner of the connection makes its Read return
+		time.Sleep(200 * time.Microsecond)
+		conn.forceClose()
+	}
+	fin := make(chan struct{})
+	go func() { done.Wait(); close(fin) }()
+	select {
+	case <-fin:
+	case <-time.After(20 * time.Second):
+		buf := make([]byte, 1<<16)
+		k := runtime.Stack(buf, true)
+		emit(map[string]interface{}{"k": "stuck", "report": "concurrent Close calls did not all return: " + string(buf[:k])})
+	}
 	emit(map[string]interface{}{"k": "end", "drifted": false, "free": true})
 	atomic.StoreInt32(&logging, 0)
 	conn.forceClose()
